@@ -134,6 +134,12 @@ func main() {
 		return
 	}
 
+	if *dump == "census" {
+		lint.DumpCensus(prog)
+
+		return
+	}
+
 	if *dump == "inline-stats" {
 		lint.DumpInline(prog)
 
